@@ -1,9 +1,10 @@
 (* C16 - The output is a well-formed, self-consistent PDF under every option: property theorems only.
    Model: coq/model/C16Stream.v (weasyprint/pdf/stream.py as a state machine over API calls, tied to the source by the
-   direct-call correspondence of harness/p_c16.py) and coq/model/C16Res.v (resource dictionaries and _use_references). *)
+   direct-call and recorded-trace correspondences of harness/p_c16.py) and coq/model/C16Res.v (resource
+   dictionaries of all the streams of a document and the key-preserving part of _use_references). *)
 From Coq Require Import ZArith List Bool.
-Require Import WV.model.C16Stream.
-Require Import WV.proofs.C16_balance WV.proofs.C16_skip WV.proofs.C16_names.
+Require Import WV.model.C16Stream WV.model.C16Res.
+Require Import WV.proofs.C16_balance WV.proofs.C16_skip WV.proofs.C16_names WV.proofs.C16_res.
 Import ListNotations.
 Open Scope Z_scope.
 
@@ -28,12 +29,13 @@ Theorem C16_ctm_stack_never_empty (mark : bool) (d : egsd) (ops ops1 ops2 : list
 Proof. exact (ctm_stack_never_empty mark d ops ops1 ops2). Qed.
 Print Assumptions C16_ctm_stack_never_empty.
 
-(* Skipping is sound: for well-bracketed calls in which the text matrix is set before anything is shown in a text
-   object, and in which no operator is installed behind a non-empty cache (`guarded`), a reference interpreter of
-   the graphics state renders the emitted tokens exactly as it renders the un-optimised sequence: same
-   observations (operator, colours, alphas, font, CTM, text matrix) at every painting operator, same final state. *)
+(* Skipping is sound: for ALL well-bracketed call sequences in which the text matrix is set before anything is
+   shown in a text object, a reference interpreter of the graphics state renders the emitted tokens exactly as it
+   renders the un-optimised sequence (every set_color/set_alpha/set_font_size emits, every push/pop emits q/Q, every
+   begin/end_text emits BT/ET): same observations (operator, fill and stroke colour, alpha constants, font, CTM, text
+   matrix) at every painting operator, same final state and saved states; so every skipped operator was redundant. *)
 Theorem C16_skip_is_sound (mark : bool) (d : egsd) (ops : list op) (s' : st) :
-  wb ops = true -> tm_disciplined false ops = true -> guarded ops (fresh mark d) = true ->
+  wb ops = true -> tm_disciplined false ops = true ->
   run ops (fresh mark d) = Some s' ->
   let X := interp (rev (toks s')) in
   let Y := interp (rev (ntoks (nrun ops (nfresh mark d)))) in
@@ -41,42 +43,6 @@ Theorem C16_skip_is_sound (mark : bool) (d : egsd) (ops : list op) (s' : st) :
   i_text X = false /\ i_text Y = false.
 Proof. exact (skip_is_sound mark d ops s'). Qed.
 Print Assumptions C16_skip_is_sound.
-
-(* in particular when the calls never use set_state with /ca or /CA nor the Pattern colour space *)
-Theorem C16_skip_is_sound_without_raw_operators (mark : bool) (d : egsd) (ops : list op) (s' : st) :
-  wb ops = true -> tm_disciplined false ops = true -> forallb raw_free ops = true ->
-  run ops (fresh mark d) = Some s' ->
-  let X := interp (rev (toks s')) in
-  let Y := interp (rev (ntoks (nrun ops (nfresh mark d)))) in
-  i_err X = false /\ i_err Y = false /\ i_obs X = i_obs Y /\ i_g X = i_g Y /\ i_stack X = i_stack Y /\
-  i_text X = false /\ i_text Y = false.
-Proof. exact (skip_is_sound_raw_free mark d ops s'). Qed.
-Print Assumptions C16_skip_is_sound_without_raw_operators.
-
-(* Refuted without the guard (finding F12): set_alpha_state / mask-border install an ExtGState with /ca 1 without
-   touching the alpha cache; the next set_alpha with the cached value is skipped and the fill is painted with
-   alpha 1 instead of 0.5 *)
-Theorem C16_skip_unsound_after_raw_gs_refuted :
-  exists ops s',
-    wb ops = true /\ tm_disciplined false ops = true /\ run ops (fresh false []) = Some s' /\
-    guarded ops (fresh false []) = false /\
-    same_rendering (interp (rev (toks s'))) (interp (rev (ntoks (nrun ops (nfresh false []))))) = false /\
-    map (fun o => g_ca (snd (fst (fst o)))) (i_obs (interp (rev (toks s')))) = [1000; 1000] /\
-    map (fun o => g_ca (snd (fst (fst o)))) (i_obs (interp (rev (ntoks (nrun ops (nfresh false [])))))) = [500; 500].
-Proof. exact skip_unsound_after_raw_gs. Qed.
-Print Assumptions C16_skip_unsound_after_raw_gs_refuted.
-
-(* ... and the Pattern colour (set_color_space('Pattern') + set_color_special) goes behind the colour cache *)
-Theorem C16_skip_unsound_after_pattern_colour_refuted :
-  exists ops s',
-    wb ops = true /\ tm_disciplined false ops = true /\ run ops (fresh false []) = Some s' /\
-    guarded ops (fresh false []) = false /\
-    same_rendering (interp (rev (toks s'))) (interp (rev (ntoks (nrun ops (nfresh false []))))) = false /\
-    map (fun o => g_fill (snd (fst (fst o)))) (i_obs (interp (rev (toks s')))) = [PPat 0; PPat 0; PPat 0; PPat 0] /\
-    map (fun o => g_fill (snd (fst (fst o)))) (i_obs (interp (rev (ntoks (nrun ops (nfresh false [])))))) =
-      [PCol (0, 0); PCol (0, 0); PPat 0; PPat 0].
-Proof. exact skip_unsound_after_pattern_colour. Qed.
-Print Assumptions C16_skip_unsound_after_pattern_colour_refuted.
 
 (* ExtGState names, for ALL call sequences: each `/name gs` in the stream is a key of the stream's resource
    dictionary, bound to what was stored when it was emitted (s{len(dict)} is always fresh, nothing is re-bound) *)
@@ -92,3 +58,21 @@ Theorem C16_gs_names_stable (mark : bool) (d : egsd) (ops1 ops2 : list op) (s1 s
 Proof. exact (gs_names_stable mark d ops1 ops2 s1 s2 k v). Qed.
 Print Assumptions C16_gs_names_stable.
 
+(* Resource naming over all the streams of a document (set_alpha / set_state / set_alpha_state / add_group /
+   add_pattern / add_shading / add_image / clone on any stream, names used on the stream that defined them): every
+   name emitted into a stream (gs, Do, sh, scn) is a key of the resource dictionary of that stream ... *)
+Theorem C16_every_named_resource_defined (d : doc) (calls : list call) (d' : doc) :
+  doc_wf d = true -> scoped d calls = true -> rrun calls d = Some d' ->
+  forall sid n, In n (emitted d' sid) -> defined d' sid n = true.
+Proof. exact (every_named_resource_defined d calls d'). Qed.
+Print Assumptions C16_every_named_resource_defined.
+
+(* ... and still is after _use_references, which finds every image name in the `images` table (no KeyError),
+   replaces the values by references and leaves the keys alone *)
+Theorem C16_use_references_keeps_names (d : doc) (calls : list call) (d' : doc) :
+  doc_wf d = true -> scoped d calls = true -> rrun calls d = Some d' ->
+  exists fin, finalise d' = Some fin /\
+    (forall sid, emitted fin sid = emitted d' sid) /\
+    (forall sid n, In n (emitted d' sid) -> defined fin sid n = true).
+Proof. exact (use_references_keeps_names d calls d'). Qed.
+Print Assumptions C16_use_references_keeps_names.
